@@ -49,7 +49,7 @@ theorem flush_ok (o : Op) : StepOK o o.flush ∧ allEvents o.flush.2 o.flush.1 =
   by_cases h : o.batch.isEmpty
   · simp only [h, if_true]
     exact ⟨⟨rfl, rfl, rfl, by intro r hr; cases hr⟩, by simp [allEvents]⟩
-  · simp only [h, if_false]
+  · simp only [h]
     have hm := handlerFold_meta o.batch o.reg
     refine ⟨⟨hm.1, hm.2, rfl, ?_⟩, by simp [allEvents]⟩
     intro r hr
@@ -113,5 +113,45 @@ theorem opFireLoop_ok (comp : Int) (n : Nat) (o : Op) :
           rcases List.mem_cons.mp he with h | h
           · exact ⟨_, _, h, hle⟩
           · exact hall e h
+
+open Rxn.Wm in
+theorem reportAll_append (s : Ups × Int) (a b : List (String × Int)) :
+    reportAll s (a ++ b) = reportAll (reportAll s a) b := by
+  induction a generalizing s with
+  | nil => rfl
+  | cons m a ih => obtain ⟨id, v⟩ := m; simp [reportAll, ih]
+
+open Rxn.Wm in
+theorem step_tracks (o : Op) (e : OpEv) :
+    ((o.step e).1.reg.ups, (o.step e).1.reg.wm) = reportAll (o.reg.ups, o.reg.wm) (wmsgs [e]) ∧
+    (o.step e).1.maxBatch = o.maxBatch ∧
+    ∀ r ∈ (o.step e).2, r.told = (reportAll (o.reg.ups, o.reg.wm) (wmsgs [e])).2 := by
+  cases e with
+  | keyed k ts =>
+    have h := (add_ok o (.keyed k ts)).1
+    simp only [Op.step, Op.keyed, wmsgs, reportAll]
+    exact ⟨by rw [h.ups, h.wm], h.maxBatch, h.told⟩
+  | wmark s v =>
+    simp only [Op.step, Op.watermark, wmsgs, reportAll]
+    have h := (opFireLoop_ok (o.reg.ups.report s v).2 (o.reg.store.db.length + 1)
+      { o with reg := { o.reg with ups := (o.reg.ups.report s v).1, wm := (o.reg.ups.report s v).2 } }).1
+    exact ⟨by rw [h.ups, h.wm], h.maxBatch, h.told⟩
+
+open Rxn.Wm in
+theorem wmsgs_append (a b : List OpEv) : wmsgs (a ++ b) = wmsgs a ++ wmsgs b := by
+  induction a with
+  | nil => rfl
+  | cons e a ih => cases e <;> simp [wmsgs, ih]
+
+open Rxn.Wm in
+theorem runState_tracks (evs : List OpEv) (o : Op) :
+    ((o.runState evs).reg.ups, (o.runState evs).reg.wm) = reportAll (o.reg.ups, o.reg.wm) (wmsgs evs) := by
+  induction evs generalizing o with
+  | nil => rfl
+  | cons e es ih =>
+    simp only [Op.runState]
+    rw [ih (o.step e).1, (step_tracks o e).1]
+    have : wmsgs (e :: es) = wmsgs [e] ++ wmsgs es := wmsgs_append [e] es
+    rw [this, reportAll_append]
 
 end Rxn.Timers
